@@ -103,3 +103,13 @@ Definition do_move (rows cols : Z) (rc : Z * Z) (m : cmove) : Z * Z :=
    back to column 0; CR LF *)
 Definition accept_line_moves (w cursor_col cursor_row start_cols line_rows line_col : Z) : list cmove :=
   [MBack cursor_col; MUp cursor_row; MFwd start_cols; MBack w; MDown line_rows; MFwd line_col; MBack w; MCrLf].
+
+
+(* the end of display.Engine.Refresh, once the line has been written and the cursor is at its
+   end: displayHelpers with no hint and no completion (CR LF; back to column 0; nothing to
+   move up), cursorHintToLineStart (up 1; up lineRows - cursorRow; CursorToLineStart: back
+   cursorCol, up cursorRow, forward startCols), lineStartToCursorPos (down cursorRow; back to
+   column 0; forward cursorCol) *)
+Definition refresh_tail_moves (w cursor_col cursor_row start_cols line_rows : Z) : list cmove :=
+  [MCrLf; MBack w; MUp 1; MUp (line_rows - cursor_row); MBack cursor_col; MUp cursor_row; MFwd start_cols;
+   MDown cursor_row; MBack w; MFwd cursor_col].
